@@ -1,7 +1,7 @@
 import Ypv.Model.Parser
 import Ypv.Spec.Write
 /-!
-# Simulation lemmas for the parser model (used by C08; reusable by C02)
+# Basic facts about the parser model (used by C08; the simulation itself is in ParserSim.lean)
 
 From a parser state "between segments", consuming the written form of one segment returns to a
 state "between segments" with exactly that segment appended.
@@ -108,97 +108,12 @@ def PState.lit (st : PState) (c : Char) : PState :=
   { st with count := st.stack.length, segId := st.segId ++ [c],
             seekingAnchorMark := false, seekingCollectorOp := false }
 
-/-- a character with no special meaning, in a position where it is not taken for an anchor mark,
-a collector operator or a search operator -/
-structure Inert (sep : Char) (st : PState) (c : Char) : Prop where
-  ns : special sep c = false
-  am : ¬ (st.seekingAnchorMark = true ∧ c = '&')
-  co : ¬ (st.seekingCollectorOp = true ∧ (c = '+' ∨ c = '-' ∨ c = '&'))
-  op : ¬ (st.stack.length = 1 ∧ st.stack.head? = some '[' ∧ isOp c = true)
-
-theorem step_inert (sep : Char) (st : PState) (c : Char) (h : LitOK st) (hc : Inert sep st c) :
-    step sep true st c = .ok (st.lit c) := by
-  obtain ⟨e, r, s, n⟩ := h
-  obtain ⟨ns, am, co, op⟩ := hc
-  simp [special] at ns
-  obtain ⟨⟨⟨⟨⟨⟨⟨⟨⟨⟨⟨h1, h2⟩, h3⟩, h4⟩, h5⟩, h6⟩, h7⟩, h8⟩, h9⟩, h10⟩, h11⟩, h12⟩ := ns
-  have hpre : pre0 st c = { st with count := st.stack.length } := by simp [pre0, n]
-  simp only [step, stepCore, hpre, dispatch]
-  simp [*, PState.lit, PState.append]
-
 theorem lit_ok {st : PState} (c : Char) (h : LitOK st) : LitOK (st.lit c) := by
   obtain ⟨e, r, s, n⟩ := h
   constructor <;> simp [PState.lit, *]
 
-theorem run_escaped (sep : Char) (st : PState) (c : Char) (h : LitOK st) :
-    run sep true st ['\\', c] = .ok (st.lit c) := by
-  obtain ⟨e, r, s, n⟩ := h
-  have hpre : pre0 st '\\' = { st with count := st.stack.length } := by simp [pre0, n]
-  cases st
-  simp_all [run, step, stepCore, dispatch, pre0, hBackslash, hEscaped, PState.lit, PState.append]
-
-/-- later characters of a text: the anchor-mark and collector-operator positions are over -/
-structure InertIn (sep : Char) (st : PState) (c : Char) : Prop where
-  ok : special sep c = true ∨
-    (¬ (st.stack.length = 1 ∧ st.stack.head? = some '[' ∧ isOp c = true))
-
-theorem run_escChar (sep : Char) (st : PState) (c : Char) (h : LitOK st)
-    (hc : special sep c = true ∨ Inert sep st c) :
-    run sep true st (escChar sep c) = .ok (st.lit c) := by
-  unfold escChar
-  split
-  · exact run_escaped sep st c h
-  · rename_i hs
-    rcases hc with hc | hc
-    · exact absurd hc hs
-    · simp [run, step_inert sep st c h hc]
-
 /-- the state after a whole text has been taken literally -/
 def PState.lits (st : PState) (k : Str) : PState := k.foldl PState.lit st
-
-/-- what the text may contain, given where it stands: `inBr` = directly inside `[ ]` -/
-def textOK (sep : Char) (inBr : Bool) (k : Str) : Prop :=
-  ∀ c ∈ k, special sep c = true ∨ (inBr = true → isOp c = false)
-
-theorem lit_stack (st : PState) (c : Char) : (st.lit c).stack = st.stack := rfl
-
-theorem inert_after_lit {sep : Char} {st : PState} {c d : Char}
-    (hd : special sep d = true ∨ ((st.stack.length = 1 ∧ st.stack.head? = some '[') → isOp d = false)) :
-    special sep d = true ∨ Inert sep (st.lit c) d := by
-  rcases hd with hd | hd
-  · exact Or.inl hd
-  · by_cases hs : special sep d = true
-    · exact Or.inl hs
-    · refine Or.inr ⟨by simpa using hs, by simp [PState.lit], by simp [PState.lit], ?_⟩
-      rintro ⟨h1, h2, h3⟩
-      have := hd ⟨h1, h2⟩
-      simp [this] at h3
-
-theorem run_escText_tail (sep : Char) (k : Str) : ∀ (st : PState) (c0 : Char), LitOK st →
-    (∀ d ∈ k, special sep d = true ∨ ((st.stack.length = 1 ∧ st.stack.head? = some '[') → isOp d = false)) →
-    run sep true (st.lit c0) (escText sep k) = .ok ((st.lit c0).lits k) := by
-  induction k with
-  | nil => intro st c0 _ _; simp [escText, run, PState.lits]
-  | cons d ds ih =>
-    intro st c0 h hk
-    have hd := hk d (by simp)
-    have h1 : run sep true (st.lit c0) (escChar sep d) = .ok ((st.lit c0).lit d) :=
-      run_escChar sep _ d (lit_ok c0 h) (inert_after_lit hd)
-    have : escText sep (d :: ds) = escChar sep d ++ escText sep ds := by simp [escText]
-    rw [this, run_append_ok h1]
-    have := ih (st.lit c0) d (lit_ok c0 h) (fun e he => by
-      simpa [lit_stack] using hk e (by simp [he]))
-    simpa [PState.lits] using this
-
-/-- consuming the written form of a non-empty text appends exactly the text to the pending
-segment text -/
-theorem run_escText (sep : Char) (st : PState) (c : Char) (k : Str) (h : LitOK st)
-    (hc : special sep c = true ∨ Inert sep st c)
-    (hk : ∀ d ∈ k, special sep d = true ∨ ((st.stack.length = 1 ∧ st.stack.head? = some '[') → isOp d = false)) :
-    run sep true st (escText sep (c :: k)) = .ok (st.lits (c :: k)) := by
-  have : escText sep (c :: k) = escChar sep c ++ escText sep k := by simp [escText]
-  rw [this, run_append_ok (run_escChar sep st c h hc)]
-  simpa [PState.lits] using run_escText_tail sep k st c h hk
 
 theorem lits_eq (st : PState) (c : Char) (k : Str) :
     st.lits (c :: k) = { st with count := st.stack.length, segId := st.segId ++ c :: k,
@@ -264,52 +179,10 @@ theorem flushSeg_of {st : PState} {ss : List Seg} (h : flushedSegs st = .ok ss) 
       subst h
       simp
 
-theorem dispatch_sep {sep : Char} (hsep : sep = '.' ∨ sep = '/') {st : PState} (h : LitOK st)
-    (hs : st.stack = []) (hc : st.count = 0) : dispatch sep true st sep = hSep st := by
-  obtain ⟨e, r, s, n⟩ := h
-  rcases hsep with rfl | rfl <;> simp [dispatch, *]
-
 theorem pre0_id {st : PState} (c : Char) (hn : st.nextCharMustBe = none)
     (hc : st.count = st.stack.length) : pre0 st c = st := by
   cases st
   simp_all [pre0]
-
-theorem step_sep {sep : Char} (hsep : sep = '.' ∨ sep = '/') {ac : Bool} {st : PState}
-    {ss : List Seg} (h : Inv ac st ss) :
-    ∃ st1, step sep true st sep = .ok st1 ∧ Inv ac st1 ss ∧ st1.segId = [] ∧ st1.segType = none := by
-  obtain ⟨⟨⟨e, r, s, n⟩, hs, hl, ho, hc⟩, hsc, hf⟩ := h
-  have hpre : pre0 st sep = st := pre0_id sep n (by simp [hs, hc])
-  refine ⟨{ st with segs := ss.reverse, segId := [], segType := none,
-                     seekingAnchorMark := true }, ?_, ?_, rfl, rfl⟩
-  · simp only [step, stepCore, hpre]
-    rw [dispatch_sep hsep ⟨e, r, s, n⟩ hs hc]
-    simp only [hSep, flushSeg_of hf]
-  · refine ⟨⟨⟨e, r, s, n⟩, hs, hl, ho, hc⟩, hsc, ?_⟩
-    simp [flushedSegs]
-
-theorem keylike {sep : Char} {ac : Bool} {st : PState} {ss : List Seg} (h : Inv ac st ss)
-    (hid : st.segId = []) (hty : st.segType = none) (c : Char) (k : Str) (sg : Seg)
-    (hc : special sep c = true ∨ (c ≠ '&' ∧ (ac = true → c ≠ '+' ∧ c ≠ '-')))
-    (hx : expandSplats (c :: k) .key = .ok sg) :
-    ∃ st', run sep true st (escText sep (c :: k)) = .ok st' ∧ Inv false st' (ss ++ [sg]) := by
-  obtain ⟨⟨hl, hs, hlv, ho, hcn⟩, hsc, hf⟩ := h
-  refine ⟨st.lits (c :: k), ?_, ?_⟩
-  · apply run_escText sep st c k hl
-    · rcases hc with hc | ⟨h1, h2⟩
-      · exact Or.inl hc
-      · by_cases hsp : special sep c = true
-        · exact Or.inl hsp
-        · refine Or.inr ⟨by simpa using hsp, by simp [h1], ?_, by simp [hs]⟩
-          rintro ⟨hco, h3⟩
-          have := h2 (by rw [← hsc]; exact hco)
-          rcases h3 with h3 | h3 | h3 <;> simp_all
-    · intro d _; right; simp [hs]
-  · rw [lits_eq]
-    obtain ⟨e, r, s, n⟩ := hl
-    refine ⟨⟨⟨e, r, s, n⟩, hs, hlv, ho, by simp [hs]⟩, rfl, ?_⟩
-    unfold flushedSegs at hf ⊢
-    simp [hid] at hf
-    simp [hid, hty, keyType, hx, ← hf]
 
 /-! ## Bracketed segments -/
 
@@ -318,19 +191,6 @@ def opened (st : PState) (ss : List Seg) : PState :=
   { st with segs := ss.reverse, segId := [], segType := some .index, seekingCollectorOp := false,
             seekingAnchorMark := true, searchInverted := false, searchMethod := none,
             searchAttr := [], stack := ['['], count := 1 }
-
-theorem dispatch_open {sep : Char} {st : PState} (h : LitOK st)
-    (hs : st.stack = []) (hc : st.count = 0) : dispatch sep true st '[' = hOpenBracket st '[' := by
-  obtain ⟨e, r, s, n⟩ := h
-  simp [dispatch, *]
-
-theorem step_open {sep : Char} {ac : Bool} {st : PState} {ss : List Seg} (h : Inv ac st ss) :
-    step sep true st '[' = .ok (opened st ss) := by
-  obtain ⟨⟨⟨e, r, s, n⟩, hs, hl, ho, hc⟩, hsc, hf⟩ := h
-  have hpre : pre0 st '[' = st := pre0_id _ n (by simp [hs, hc])
-  simp only [step, stepCore, hpre]
-  rw [dispatch_open ⟨e, r, s, n⟩ hs hc]
-  simp only [hOpenBracket, flushSeg_of hf, PState.push, opened, hs, hc]
 
 /-- directly inside a top-level `[ ]` -/
 structure InBr (st : PState) (ss : List Seg) : Prop where
@@ -349,43 +209,7 @@ theorem opened_inBr {ac : Bool} {st : PState} {ss : List Seg} (h : Inv ac st ss)
   obtain ⟨⟨⟨e, r, s, n⟩, hs, hl, ho, hc⟩, hsc, hf⟩ := h
   exact ⟨⟨e, r, s, Or.inl n, rfl, rfl, hl, ho, rfl⟩, ⟨e, r, s, n⟩⟩
 
-/-- the closing `]`: the segment `closeSeg` builds is appended and the parser is between segments -/
-theorem step_close {sep : Char} {st : PState} {ss : List Seg} {sg : Seg} (h : InBr st ss)
-    (hcs : closeSeg st = .ok sg) :
-    ∃ st', step sep true st ']' = .ok st' ∧ Inv false st' (ss ++ [sg]) := by
-  obtain ⟨e, r, s, n, hs, hsg, hl, ho, hsc⟩ := h
-  have hpre : pre0 st ']' = { st with count := 1, nextCharMustBe := none } := by
-    rcases n with n | n <;> simp [pre0, n, hs]
-  have hcs' : closeSeg { st with count := 1, nextCharMustBe := none } = .ok sg := hcs
-  refine ⟨{ ({ st with count := 1, nextCharMustBe := none } : PState).pop with
-      segs := sg :: st.segs, segId := [], segType := none, searchMethod := none,
-      searchInverted := false, searchKeyword := none }, ?_, ?_⟩
-  · simp only [step, stepCore, hpre]
-    have : dispatch sep true { st with count := 1, nextCharMustBe := none } ']'
-        = hCloseBracket { st with count := 1, nextCharMustBe := none } := by
-      simp [dispatch, *, isOp]
-    rw [this]
-    simp only [hCloseBracket, hcs']
-  · refine ⟨⟨⟨by simp [PState.pop, e], by simp [PState.pop, r], by simp [PState.pop, s],
-        by simp [PState.pop]⟩, by simp [PState.pop, hs], by simp [PState.pop, hl],
-        by simp [PState.pop, ho], by simp [PState.pop]⟩, by simp [PState.pop, hsc], ?_⟩
-    simp [flushedSegs, PState.pop, hsg]
-
-theorem escText_raw {sep : Char} {k : Str} (h : ∀ c ∈ k, special sep c = false) :
-    escText sep k = k := by
-  induction k with
-  | nil => simp [escText]
-  | cons c cs ih =>
-    have hc := h c (by simp)
-    have := ih (fun d hd => h d (by simp [hd]))
-    simp [escText, escChar, hc] at this ⊢
-    exact this
-
 /-! ## One segment at a time -/
-
-/-- the conclusion of every per-kind lemma -/
-def Simulates (sep : Char) (lead : Bool) (ac : Bool) (st : PState) (ss : List Seg) (seg : Seg) : Prop :=
-  ∃ st', run sep true st (writeSeg sep lead seg) = .ok st' ∧ Inv (isColl seg) st' (ss ++ [seg])
 
 theorem expandSplats_plain {k : Str} (h : k.contains '*' = false) (t : SegType) :
     expandSplats k t = .ok (t, .str k) := by
@@ -394,171 +218,12 @@ theorem expandSplats_plain {k : Str} (h : k.contains '*' = false) (t : SegType) 
     simpa using h
   simp [expandSplats, this]
 
-/-- key-like text after an optional separator -/
-theorem keylike_lead {sep : Char} (hsep : sep = '.' ∨ sep = '/') {ac : Bool} {st : PState}
-    {ss : List Seg} (h : Inv ac st ss) (lead : Bool)
-    (hlead : lead = false → st.segId = [] ∧ st.segType = none) (c : Char) (k : Str) (sg : Seg)
-    (hc : special sep c = true ∨ (c ≠ '&' ∧ (ac = true → c ≠ '+' ∧ c ≠ '-')))
-    (hx : expandSplats (c :: k) .key = .ok sg) :
-    ∃ st', run sep true st ((if lead then [sep] else []) ++ escText sep (c :: k)) = .ok st' ∧
-      Inv false st' (ss ++ [sg]) := by
-  cases lead with
-  | false =>
-    obtain ⟨h1, h2⟩ := hlead rfl
-    simpa using keylike h h1 h2 c k sg hc hx
-  | true =>
-    obtain ⟨st1, hs1, hi1, h1, h2⟩ := step_sep hsep h
-    obtain ⟨st', hr, hi⟩ := keylike (sep := sep) hi1 h1 h2 c k sg hc hx
-    refine ⟨st', ?_, hi⟩
-    simp only [↓reduceIte, List.cons_append, List.nil_append, run, hs1]
-    exact hr
-
-theorem seg_key {sep : Char} (hsep : sep = '.' ∨ sep = '/') {ac : Bool} {st : PState}
-    {ss : List Seg} (h : Inv ac st ss) (lead : Bool)
-    (hlead : lead = false → st.segId = [] ∧ st.segType = none) (k : Str)
-    (hwf : wfSeg ac (.key, .str k) = true) : Simulates sep lead ac st ss (.key, .str k) := by
-  simp only [wfSeg, wfKeyText, Bool.and_eq_true, Bool.not_eq_true', decide_eq_true_eq,
-    Bool.or_eq_true, Bool.and_eq_false_imp] at hwf
-  obtain ⟨⟨⟨⟨hne, hstar⟩, hamp⟩, _⟩, hpm⟩ := hwf
-  cases k with
-  | nil => simp at hne
-  | cons c k =>
-    have := keylike_lead hsep h lead hlead c k (.key, .str (c :: k))
-      (Or.inr ⟨by simpa using hamp, fun hac => by simpa [hac] using hpm⟩)
-      (expandSplats_plain hstar _)
-    simpa [Simulates, writeSeg, isColl] using this
-
-theorem special_star {sep : Char} (hsep : sep = '.' ∨ sep = '/') : special sep '*' = false := by
-  rcases hsep with rfl | rfl <;> decide
-
-theorem seg_matchAll {sep : Char} (hsep : sep = '.' ∨ sep = '/') {ac : Bool} {st : PState}
-    {ss : List Seg} (h : Inv ac st ss) (lead : Bool)
-    (hlead : lead = false → st.segId = [] ∧ st.segType = none) :
-    Simulates sep lead ac st ss (.matchAll, .none) := by
-  have := keylike_lead hsep h lead hlead '*' [] (.matchAll, .none)
-    (Or.inr ⟨by decide, fun _ => by decide⟩) (by decide)
-  simpa [Simulates, writeSeg, isColl, escText, escChar, special_star hsep] using this
-
-theorem seg_traverse {sep : Char} (hsep : sep = '.' ∨ sep = '/') {ac : Bool} {st : PState}
-    {ss : List Seg} (h : Inv ac st ss) (lead : Bool)
-    (hlead : lead = false → st.segId = [] ∧ st.segType = none) :
-    Simulates sep lead ac st ss (.traverse, .none) := by
-  have := keylike_lead hsep h lead hlead '*' ['*'] (.traverse, .none)
-    (Or.inr ⟨by decide, fun _ => by decide⟩) (by decide)
-  simpa [Simulates, writeSeg, isColl, escText, escChar, special_star hsep] using this
-
-/-- a bracketed segment: `[`, a body that leaves the parser inside the bracket with `closeSeg`
-yielding `sg`, `]` -/
-theorem bracketed {sep : Char} {ac : Bool} {st : PState} {ss : List Seg} (h : Inv ac st ss)
-    (body : Str) (sg : Seg)
-    (hb : ∃ b', run sep true (opened st ss) body = .ok b' ∧ InBr b' ss ∧ closeSeg b' = .ok sg) :
-    ∃ st', run sep true st ('[' :: (body ++ [']'])) = .ok st' ∧ Inv false st' (ss ++ [sg]) := by
-  obtain ⟨b', hr, hib, hcs⟩ := hb
-  obtain ⟨st', hs, hi⟩ := step_close (sep := sep) hib hcs
-  refine ⟨st', ?_, hi⟩
-  simp only [run, step_open h]
-  rw [run_append_ok hr]
-  simp [run, hs]
-
-theorem inBr_lits {st : PState} {ss : List Seg} (h : InBr st ss) (hn : st.nextCharMustBe = none)
-    (c : Char) (k : Str) : InBr (st.lits (c :: k)) ss := by
-  obtain ⟨e, r, s, n, hs, hsg, hl, ho, hsc⟩ := h
-  rw [lits_eq]
-  exact ⟨e, r, s, Or.inl hn, hs, hsg, hl, ho, rfl⟩
-
-theorem seg_slice {sep : Char} (hsep : sep = '.' ∨ sep = '/') {ac : Bool} {st : PState}
-    {ss : List Seg} (h : Inv ac st ss) (lead : Bool) (sl : Str)
-    (hwf : wfSeg ac (.index, .str sl) = true) : Simulates sep lead ac st ss (.index, .str sl) := by
-  simp only [wfSeg, wfSlice, Bool.and_eq_true, List.all_eq_true] at hwf
-  obtain ⟨hcol, hall⟩ := hwf
-  have hns : ∀ c ∈ sl, special sep c = false ∧ isOp c = false ∧ c ≠ '&' := by
-    intro c hc
-    have := hall c hc
-    simp only [sliceChar, isDigit, Bool.or_eq_true, Bool.and_eq_true, decide_eq_true_eq] at this
-    rcases hsep with rfl | rfl <;> rcases this with (⟨h1, h2⟩ | rfl) | rfl
-    all_goals first | decide | skip
-    all_goals
-      refine ⟨?_, ?_, ?_⟩
-      · simp only [special, Bool.or_eq_false_iff, decide_eq_false_iff_not]
-        refine ⟨⟨⟨⟨⟨⟨⟨⟨⟨⟨⟨?_, ?_⟩, ?_⟩, ?_⟩, ?_⟩, ?_⟩, ?_⟩, ?_⟩, ?_⟩, ?_⟩, ?_⟩, ?_⟩ <;>
-          (rintro rfl; revert h1 h2; decide)
-      · simp only [isOp, Bool.or_eq_false_iff, decide_eq_false_iff_not]
-        refine ⟨⟨⟨⟨⟨⟨⟨?_, ?_⟩, ?_⟩, ?_⟩, ?_⟩, ?_⟩, ?_⟩, ?_⟩ <;> (rintro rfl; revert h1 h2; decide)
-      · rintro rfl; revert h1 h2; decide
-  cases sl with
-  | nil => simp at hcol
-  | cons c k =>
-    obtain ⟨hib, hlo⟩ := opened_inBr h
-    have hrun : run sep true (opened st ss) (c :: k) = .ok ((opened st ss).lits (c :: k)) := by
-      have := run_escText sep (opened st ss) c k hlo
-        (Or.inr ⟨(hns c (by simp)).1, by simp [(hns c (by simp)).2.2], by simp [opened],
-          by simp [(hns c (by simp)).2.1]⟩)
-        (fun d hd => Or.inr (fun _ => (hns d (by simp [hd])).2.1))
-      rwa [escText_raw (fun d hd => (hns d hd).1)] at this
-    have := bracketed (sep := sep) h (c :: k) (.index, .str (c :: k))
-      ⟨_, hrun, inBr_lits hib hlo.ncm c k, by
-        rw [lits_eq]
-        have hm : ':' = c ∨ ':' ∈ k := by simpa using hcol
-        simp only [closeSeg, opened, List.nil_append, List.contains_eq_mem, List.mem_cons,
-          decide_eq_true_eq, true_and]
-        simp [hm]⟩
-    simpa [Simulates, writeSeg, isColl] using this
-
 theorem isOp_of {sep c : Char} (h1 : special sep c = false) (h2 : opChar c = false) :
     isOp c = false := by
   simp only [special, Bool.or_eq_false_iff, decide_eq_false_iff_not] at h1
   simp only [opChar, Bool.or_eq_false_iff, decide_eq_false_iff_not] at h2
   simp only [isOp, Bool.or_eq_false_iff, decide_eq_false_iff_not]
   simp_all
-
-/-- hypotheses of `run_escText` for a text directly inside `[ ]` that holds no operator character -/
-theorem textOK_inBr {sep : Char} {k : Str} (h : k.any opChar = false) (st : PState) :
-    ∀ d ∈ k, special sep d = true ∨
-      ((st.stack.length = 1 ∧ st.stack.head? = some '[') → isOp d = false) := by
-  intro d hd
-  by_cases hs : special sep d = true
-  · exact Or.inl hs
-  · right
-    intro _
-    apply isOp_of (by simpa using hs)
-    simp only [List.any_eq_false] at h
-    simpa using h d hd
-
-theorem step_amp {sep : Char} {ac : Bool} {st : PState} {ss : List Seg} (h : Inv ac st ss) :
-    step sep true (opened st ss) '&' =
-      .ok { opened st ss with seekingAnchorMark := false, segType := some .anchor } := by
-  obtain ⟨⟨⟨e, r, s, n⟩, hs, hl, ho, hc⟩, hsc, hf⟩ := h
-  have hpre : pre0 (opened st ss) '&' = opened st ss := pre0_id _ n rfl
-  simp only [step, stepCore, hpre]
-  simp [dispatch, opened, hAnchorMark, *]
-
-theorem seg_anchor {sep : Char} {ac : Bool} {st : PState}
-    {ss : List Seg} (h : Inv ac st ss) (lead : Bool) (a : Str)
-    (hwf : wfSeg ac (.anchor, .str a) = true) : Simulates sep lead ac st ss (.anchor, .str a) := by
-  simp only [wfSeg, Bool.and_eq_true, Bool.not_eq_true', decide_eq_true_eq] at hwf
-  obtain ⟨⟨hne, _⟩, hop⟩ := hwf
-  obtain ⟨hib, hlo⟩ := opened_inBr h
-  cases a with
-  | nil => simp at hne
-  | cons c k =>
-    let b1 : PState := { opened st ss with seekingAnchorMark := false, segType := some .anchor }
-    have hlo1 : LitOK b1 := ⟨hlo.esc, hlo.rx, hlo.srd, hlo.ncm⟩
-    have hib1 : InBr b1 ss := ⟨hib.esc, hib.rx, hib.srd, hib.ncm, hib.stack, hib.segs, hib.lvl, hib.cop, hib.sco⟩
-    have hrun : run sep true b1 (escText sep (c :: k)) = .ok (b1.lits (c :: k)) := by
-      apply run_escText sep b1 c k hlo1
-      · by_cases hsp : special sep c = true
-        · exact Or.inl hsp
-        · refine Or.inr ⟨by simpa using hsp, by simp [b1], by simp [b1, opened], ?_⟩
-          have : opChar c = false := by
-            simp only [List.any_cons, Bool.or_eq_false_iff] at hop; exact hop.1
-          simp [isOp_of (by simpa using hsp) this]
-      · apply textOK_inBr
-        simp only [List.any_cons, Bool.or_eq_false_iff] at hop; exact hop.2
-    have := bracketed (sep := sep) h ('&' :: escText sep (c :: k)) (.anchor, .str (c :: k))
-      ⟨_, by simp only [run, step_amp h]; exact hrun, inBr_lits hib1 hlo1.ncm c k, by
-        rw [lits_eq]
-        simp [closeSeg, b1, opened]⟩
-    simpa [Simulates, writeSeg, isColl] using this
 
 theorem pyStrInt_chars (i : Int) : ∀ c ∈ pyStrInt i, c = '-' ∨ c.isDigit = true := by
   intro c hc
@@ -575,73 +240,7 @@ theorem pyStrInt_ne_nil (i : Int) : pyStrInt i ≠ [] := by
   · simp
   · exact Nat.toDigits_ne_nil
 
-theorem seg_int {sep : Char} (hsep : sep = '.' ∨ sep = '/') {ac : Bool} {st : PState}
-    {ss : List Seg} (h : Inv ac st ss) (lead : Bool) (i : Int) :
-    Simulates sep lead ac st ss (.index, .int i) := by
-  have hns : ∀ c ∈ pyStrInt i, special sep c = false ∧ isOp c = false ∧ c ≠ '&' ∧ c ≠ ':' := by
-    intro c hc
-    rcases pyStrInt_chars i c hc with rfl | hd
-    · rcases hsep with rfl | rfl <;> decide
-    · simp only [Char.isDigit, Bool.and_eq_true, decide_eq_true_eq] at hd
-      refine ⟨?_, ?_, ?_, ?_⟩
-      · simp only [special, Bool.or_eq_false_iff, decide_eq_false_iff_not]
-        rcases hsep with rfl | rfl <;>
-        refine ⟨⟨⟨⟨⟨⟨⟨⟨⟨⟨⟨?_, ?_⟩, ?_⟩, ?_⟩, ?_⟩, ?_⟩, ?_⟩, ?_⟩, ?_⟩, ?_⟩, ?_⟩, ?_⟩ <;>
-          (rintro rfl; revert hd; decide)
-      · simp only [isOp, Bool.or_eq_false_iff, decide_eq_false_iff_not]
-        refine ⟨⟨⟨⟨⟨⟨⟨?_, ?_⟩, ?_⟩, ?_⟩, ?_⟩, ?_⟩, ?_⟩, ?_⟩ <;> (rintro rfl; revert hd; decide)
-      · rintro rfl; revert hd; decide
-      · rintro rfl; revert hd; decide
-  obtain ⟨hib, hlo⟩ := opened_inBr h
-  cases hx : pyStrInt i with
-  | nil => exact absurd hx (pyStrInt_ne_nil i)
-  | cons c k =>
-    rw [hx] at hns
-    have hrun : run sep true (opened st ss) (c :: k) = .ok ((opened st ss).lits (c :: k)) := by
-      have := run_escText sep (opened st ss) c k hlo
-        (Or.inr ⟨(hns c (by simp)).1, by simp [(hns c (by simp)).2.2.1], by simp [opened],
-          by simp [(hns c (by simp)).2.1]⟩)
-        (fun d hd => Or.inr (fun _ => (hns d (by simp [hd])).2.1))
-      rwa [escText_raw (fun d hd => (hns d hd).1)] at this
-    have := bracketed (sep := sep) h (c :: k) (.index, .int i)
-      ⟨_, hrun, inBr_lits hib hlo.ncm c k, by
-        rw [lits_eq]
-        have hnc : ¬ (':' = c ∨ ':' ∈ k) := by
-          rintro (rfl | hm)
-          · exact (hns ':' (by simp)).2.2.2 rfl
-          · exact (hns ':' (by simp [hm])).2.2.2 rfl
-        have hpi : pyInt? (c :: k) = some i := by rw [← hx]; exact pyInt_pyStrInt i
-        simp only [closeSeg, opened, List.nil_append, List.contains_eq_mem, List.mem_cons,
-          decide_eq_true_eq, true_and]
-        simp [hnc, hpi]⟩
-    simpa [Simulates, writeSeg, isColl, hx] using this
-
 /-! ## Composition over a segment list -/
-
-/-- segment kinds for which the simulation lemma is available -/
-def SimOK (sep : Char) (P : Seg → Prop) : Prop :=
-  ∀ (seg : Seg), P seg → ∀ (ac : Bool) (st : PState) (ss : List Seg) (lead : Bool),
-    Inv ac st ss → (lead = false → st.segId = [] ∧ st.segType = none) → wfSeg ac seg = true →
-    Simulates sep lead ac st ss seg
-
-theorem run_writeFrom {sep : Char} {P : Seg → Prop} (hsim : SimOK sep P) :
-    ∀ (segs : List Seg) (ac : Bool) (st : PState) (ss : List Seg) (lead : Bool),
-    (∀ s ∈ segs, P s) → Inv ac st ss → (lead = false → st.segId = [] ∧ st.segType = none) →
-    wfFrom ac segs = true →
-    ∃ st' ac', run sep true st (writeFrom sep lead segs) = .ok st' ∧ Inv ac' st' (ss ++ segs) := by
-  intro segs
-  induction segs with
-  | nil => intro ac st ss lead _ h _ _; exact ⟨st, ac, by simp [writeFrom, run], by simpa using h⟩
-  | cons s r ih =>
-    intro ac st ss lead hP h hlead hwf
-    simp only [wfFrom, Bool.and_eq_true] at hwf
-    obtain ⟨st1, hr1, hi1⟩ := hsim s (hP s (by simp)) ac st ss lead h hlead hwf.1
-    obtain ⟨st2, ac2, hr2, hi2⟩ := ih (isColl s) st1 (ss ++ [s]) true
-      (fun x hx => hP x (by simp [hx])) hi1 (by simp) hwf.2
-    refine ⟨st2, ac2, ?_, by simpa using hi2⟩
-    simp only [writeFrom]
-    rw [run_append_ok hr1]
-    exact hr2
 
 theorem normOriginal_of_nonblank {t : Str} (h : ∃ c ∈ t, isPyWs c = false) : normOriginal t = t := by
   obtain ⟨c, hc, hw⟩ := h
@@ -688,59 +287,3 @@ theorem writeSeg_nonblank {sep : Char} (seg : Seg) (hwf : wfSeg false seg = true
   case collector.collector e op =>
     simp only [Bool.false_or, Bool.and_eq_true, decide_eq_true_eq] at hwf
     exact ⟨'(', by simp [writeSeg, hwf.1, CollOp.text], by decide⟩
-
-/-- `parse_write`, for every segment kind whose simulation lemma is available -/
-theorem parse_write_of {P : Seg → Prop} (hd : SimOK '.' P) (hf : SimOK '/' P) (fslash : Bool)
-    (segs : List Seg) (hP : ∀ s ∈ segs, P s) (hwf : wfSegs segs = true) :
-    parseWith fslash true (write fslash segs) = .ok segs := by
-  cases fslash with
-  | true =>
-    have hn : normOriginal (write true segs) = write true segs :=
-      normOriginal_of_nonblank ⟨'/', by simp [write], by decide⟩
-    have key : ∀ b : Bool, ∃ st2 ac2, run '/' true { seekingAnchorMark := b } (write true segs)
-        = .ok st2 ∧ Inv ac2 st2 segs := by
-      intro b
-      obtain ⟨st1, hs1, hi1, h1, h2⟩ := step_sep (sep := '/') (Or.inr rfl) (init_inv b)
-      obtain ⟨st2, ac2, hr2, hi2⟩ := run_writeFrom hf segs false st1 [] false hP hi1
-        (fun _ => ⟨h1, h2⟩) hwf
-      refine ⟨st2, ac2, ?_, by simpa using hi2⟩
-      simp only [write, ↓reduceIte, run, hs1]
-      exact hr2
-    unfold parseWith
-    simp only [hn]
-    have hne : write true segs ≠ [] := by simp [write]
-    simp only [hne, ↓reduceIte]
-    have fin : ∀ b : Bool, (match run '/' true { seekingAnchorMark := b } (write true segs) with
-        | .error e => (Except.error e : Except PErr (List Seg))
-        | .ok st => finish st) = .ok segs := by
-      intro b
-      obtain ⟨st2, ac2, hr2, hi2⟩ := key b
-      simp only [hr2]
-      exact finish_of_inv hi2
-    exact fin _
-  | false =>
-    cases segs with
-    | nil => simp [write, writeFrom, parseWith, normOriginal]
-    | cons s r =>
-      simp only [wfSegs, wfFrom, Bool.and_eq_true] at hwf
-      have hn : normOriginal (write false (s :: r)) = write false (s :: r) := by
-        apply normOriginal_of_nonblank
-        obtain ⟨c, hc, hw⟩ := writeSeg_nonblank (sep := '.') s hwf.1
-        exact ⟨c, by simp [write, writeFrom, hc], hw⟩
-      obtain ⟨st2, ac2, hr2, hi2⟩ := run_writeFrom hd (s :: r) false
-        { seekingAnchorMark := (write false (s :: r))[0]? = some '&' } [] false hP (init_inv _)
-        (fun _ => ⟨rfl, rfl⟩) (by simp [wfFrom, hwf])
-      unfold parseWith
-      simp only [hn]
-      have hne : write false (s :: r) ≠ [] := by
-        obtain ⟨c, hc, _⟩ := writeSeg_nonblank (sep := '.') s hwf.1
-        intro h0
-        simp [write, writeFrom] at h0
-        simp [h0.1] at hc
-      simp only [hne, ↓reduceIte]
-      have : run '.' true { seekingAnchorMark := (write false (s :: r))[0]? = some '&' }
-          (write false (s :: r)) = .ok st2 := by
-        simpa [write] using hr2
-      simp only [Bool.false_eq_true, false_and, ↓reduceIte] at this ⊢
-      simp only [this]
-      simpa using finish_of_inv hi2
